@@ -11,7 +11,7 @@ Section KNum.
   Context {T : Type} (N : Num T).
   Lemma K_rc_norm c l : rc_norm N c l = ndiv N c l /\ rc_norm_last = -1.
   Proof. split; reflexivity. Qed.
-  Lemma K_rc_neg x : rc_neg N x = nltb N x (nzero N). Proof. reflexivity. Qed.
+  Lemma K_rc_nonneg x : rc_nonneg N x = nleb N (nzero N) x. Proof. reflexivity. Qed.
   Lemma K_rc_sum_bad s a : rc_sum_bad N s a = nltb N a (nabs N (nsub N s (none N))).
   Proof. reflexivity. Qed.
   Lemma K_rc_atol e64 ep :
